@@ -20,7 +20,11 @@ def gen_hierarchy(rng):
         names = rng.sample(NAMES, rng.choice([0, 1, 2, 3]))
         for nm in names:
             k = rng.random()
-            if k < 0.45:
+            if k < 0.08:
+                # one method carrying both decorators: "<on-action>|<after-action>|<which decorator is outermost>"
+                attrs.append((nm, "both", "%s|%s|%s" % (rng.choice(ACTIONS), rng.choice(ACTIONS), rng.choice(["after", "on"])),
+                              rng.random() < 0.5, rng.random() < 0.5))
+            elif k < 0.45:
                 attrs.append((nm, "on", rng.choice(ACTIONS), rng.random() < 0.3, rng.random() < 0.5))
             elif k < 0.65:
                 attrs.append((nm, "after", rng.choice(ACTIONS), False, rng.random() < 0.5))
@@ -88,6 +92,11 @@ def build(classes, order, version="1.6"):
                 fn = on(action, skip_schema_validation=skip)(fn)
             elif kind == "after":
                 fn = after(action)(fn)
+            elif kind == "both":
+                a_on, a_after, outer = action.split("|")
+                fn = after(a_after)(on(a_on, skip_schema_validation=skip)(fn)) if outer == "after" else \
+                    on(a_on, skip_schema_validation=skip)(after(a_after)(fn))
+                fn._ov_owner = c["name"]
             if is_async == "redecorate":
                 fn._ov_owner = c["name"]          # the new wrapper belongs to this class (decorating returns a new function)
             ns[nm] = fn
@@ -133,14 +142,14 @@ def expected(built, classes, ci):
         # action and flag as DECLARED for that method in its class (what the decorators left on the function only where
         # the case does not say, i.e. never for generated hierarchies)
         d = decl.get((owner, nm))
-        if hasattr(a, "_on_action"):
-            action = d[2] if d and d[1] == "on" else a._on_action
+        if (d[1] in ("on", "both")) if d else hasattr(a, "_on_action"):
+            action = d[2].split("|")[0] if d and d[1] in ("on", "both") else a._on_action
             e = out.setdefault(action, {})
             if "on" in e:
                 amb.add(action)
-            e["on"] = [owner, nm, bool(d[3]) if d and d[1] == "on" else bool(a._skip_schema_validation), True]
-        if hasattr(a, "_after_action"):
-            action = d[2] if d and d[1] == "after" else a._after_action
+            e["on"] = [owner, nm, bool(d[3]) if d and d[1] in ("on", "both") else bool(a._skip_schema_validation), True]
+        if (d[1] in ("after", "both")) if d else hasattr(a, "_after_action"):
+            action = (d[2].split("|")[1] if d[1] == "both" else d[2]) if d and d[1] in ("after", "both") else a._after_action
             e = out.setdefault(action, {})
             if "after" in e:
                 amb.add(action)
@@ -154,8 +163,11 @@ def chistory(classes, order):
         c = classes[ci]
         attrs = []
         for (nm, kind, action, skip, is_async) in c["attrs"]:
-            a = {"on": "AOn %s %s" % (C.cs(action or ""), C.cbool(skip)), "after": "AAfter %s" % C.cs(action or ""),
-                 "plain": "APlain", "property": "AProperty"}[kind]
+            if kind == "both":
+                a = "ABoth %s %s %s" % (C.cs(action.split("|")[0]), C.cbool(skip), C.cs(action.split("|")[1]))
+            else:
+                a = {"on": "AOn %s %s" % (C.cs(action or ""), C.cbool(skip)), "after": "AAfter %s" % C.cs(action or ""),
+                     "plain": "APlain", "property": "AProperty"}[kind]
             attrs.append("(%s, %s)" % (C.cs(nm), a))
         base = "None" if c["base"] is None else "(Some %s)" % C.cs(classes[c["base"]]["name"])
         rows.append("mkRC %s %s %s" % (C.cs(c["name"]), base, C.clist(attrs)))
